@@ -6,8 +6,13 @@ import SfwModel.Model.Sha256
 import SfwModel.Model.Store
 import SfwModel.Model.PathGuard
 import SfwModel.Model.Sandbox
+import SfwModel.Model.Json
+import SfwModel.Model.Audit
+import SfwModel.Model.Migrate
 import SfwModel.Props.C05
 import SfwModel.Props.C08
 import SfwModel.Props.C15
 import SfwModel.Props.C19
 import SfwModel.Props.C20
+import SfwModel.Props.C14
+import SfwModel.Props.C06
